@@ -407,3 +407,57 @@ Proof.
   replace (cfg_after (ex_cfg m) _ _ 3000) with (ex_cfg m) by (destruct m; reflexivity).
   apply ex_blocked_by_spec.
 Qed.
+
+(** * The blocking configuration follows the last dns_config *)
+
+(** After any history of dns_config calls: the mode is the one of the last
+    call that carried a mode; with custom_ip the two addresses are those of
+    that call; the TTL is the one of the last call that carried a TTL. *)
+Theorem blocking_follows_last_dns_config c h m v4 v6 rest :
+  Forall (fun o => match o with BMode _ _ _ => False | BTTL _ => True end) rest ->
+  let c' := brun_now c (h ++ BMode m v4 v6 :: rest) in
+  c_mode c' = m /\ (m = MCustomIP -> c_ip4 c' = v4 /\ c_ip6 c' = v6).
+Proof.
+  intros F. cbv zeta. unfold brun_now, brun. rewrite fold_left_app. cbn [fold_left].
+  set (c1 := bstep mode_always (fold_left (bstep mode_always) h c) (BMode m v4 v6)).
+  assert (E : c_mode c1 = m /\ (m = MCustomIP -> c_ip4 c1 = v4 /\ c_ip6 c1 = v6)).
+  { unfold c1. cbn [bstep mode_always]. unfold set_blocking. destruct m; cbn; split; auto; try discriminate. }
+  clearbody c1. revert c1 E. induction F as [|o l Ho F IH]; intros c1 E; [exact E|].
+  cbn [fold_left]. apply IH. destruct o as [|t]; [contradiction|]. cbn. exact E.
+Qed.
+
+Theorem ttl_follows_last_dns_config c h t rest :
+  Forall (fun o => match o with BTTL _ => False | BMode _ _ _ => True end) rest ->
+  c_ttl (brun_now c (h ++ BTTL t :: rest)) = t.
+Proof.
+  intros F. unfold brun_now, brun. rewrite fold_left_app. cbn [fold_left].
+  set (c1 := bstep mode_always (fold_left (bstep mode_always) h c) (BTTL t)).
+  assert (E : c_ttl c1 = t) by reflexivity.
+  clearbody c1. revert c1 E. induction F as [|o l Ho F IH]; intros c1 E; [exact E|].
+  cbn [fold_left]. apply IH. destruct o as [m v4 v6|]; [|contradiction].
+  cbn [bstep mode_always]. unfold set_blocking. destruct (is_custom m); exact E.
+Qed.
+
+(** Nothing else of the configuration is touched (so the theorems about the
+    pipeline read with the last blocking configuration in place). *)
+Theorem blocking_ops_keep_the_rest c h :
+  let c' := brun_now c h in
+  protection_on c' = protection_on c /\ c_filtering c' = c_filtering c /\ c_rewrites c' = c_rewrites c /\
+  c_services c' = c_services c /\ c_aaaa_disabled c' = c_aaaa_disabled c.
+Proof.
+  cbv zeta. unfold brun_now, brun. revert c. induction h as [|o h IH]; intros c; [repeat split|].
+  cbn [fold_left]. destruct (IH (bstep mode_always c o)) as (A & B & C & D & E).
+  rewrite A, B, C, D, E. destruct o as [m v4 v6|t]; cbn; [unfold set_blocking; destruct (is_custom m)|]; repeat split.
+Qed.
+
+(** The seeded setConfig (the filter is told only when the mode differs):
+    custom_ip with one pair of addresses, then custom_ip again with another
+    pair: the old pair stays. *)
+Definition a4 (n : N) : addr := mkAddr V4 n [].
+Theorem blocking_skipped_when_mode_unchanged_refuted :
+  exists c h v4, c_mode (brun_now c h) = MCustomIP /\ c_ip4 (brun_now c h) = v4 /\
+    c_mode (brun mode_only_when_changed c h) = MCustomIP /\ c_ip4 (brun mode_only_when_changed c h) <> v4.
+Proof.
+  exists (ex_cfg MDefault), [BMode MCustomIP (a4 1) (a4 2); BMode MCustomIP (a4 3) (a4 4)], (a4 3).
+  vm_compute. repeat split; discriminate.
+Qed.
